@@ -1,6 +1,6 @@
 //! X25519, Ed25519, field / scalar / group arithmetic
 use crate::codec::*;
-use cryptoxide::curve25519::{curve25519, curve25519_base, Fe, Ge, GePartial, Scalar};
+use cryptoxide::curve25519::{curve25519, curve25519_base, Fe, Ge, GePartial, GePrecomp, Scalar};
 use cryptoxide::{ed25519, x25519};
 use std::convert::TryFrom;
 
@@ -147,6 +147,12 @@ fn bulk_one(kind: &str, inp: &[u8]) -> Vec<u8> {
             o
         }
         "sc_reduce" => Scalar::reduce_from_wide_bytes(&a64(&inp[..64])).to_bytes().to_vec(),
+        "sc_muladd" => {
+            // a * b + c mod L (hook: the crate-internal routine signing uses); c below 2^252 (the addend is a reduced nonce in the crate)
+            let mut c = a32(&inp[64..96]);
+            c[31] &= 0x0f;
+            cryptoxide::curve25519::verif::sc_muladd(&a32(&inp[..32]), &a32(&inp[32..64]), &c).to_vec()
+        }
         "poly1305" => {
             // key 32 bytes, message of 0..=96 bytes delivered in two input calls
             use cryptoxide::mac::Mac;
@@ -200,7 +206,7 @@ pub fn bulk_len(kind: &str) -> usize {
         "x25519" | "sc_reduce" | "fe_mix" => 64,
         "x25519_base" | "fe_inv" => 32,
         "ed_sign" => 96,
-        "ge_dsm" => 96,
+        "ge_dsm" | "sc_muladd" => 96,
         "poly1305" => 130,
         _ => panic!("bulk kind {}", kind),
     }
@@ -319,6 +325,8 @@ pub fn run(op: &str, a: &[&str]) -> Vec<String> {
             hex(&Ge::ZERO.to_bytes()),
         ],
         "sc_reduce" => vec![hex(&Scalar::reduce_from_wide_bytes(&a64(&expand(a[0]))).to_bytes())],
+        // sc_muladd <a> <b> <c> : a*b + c mod L through the hook
+        "sc_muladd" => vec![hex(&cryptoxide::curve25519::verif::sc_muladd(&a32(&expand(a[0])), &a32(&expand(a[1])), &a32(&expand(a[2]))))],
         "sc_canon" => vec![match Scalar::from_bytes_canonical(&a32(&expand(a[0]))) {
             Some(s) => hex(&s.to_bytes()),
             None => "NONE".into(),
@@ -372,6 +380,42 @@ pub fn run(op: &str, a: &[&str]) -> Vec<String> {
                 _ => panic!("bad ge_chain op"),
             };
             vec![hex(&r)]
+        }
+        // ge_prog <step>... : registers of full points, created in order
+        //   in.<spec> | dbl.i | dbp.i (double_p1p1+to_full) | dpf.i (to_partial.double_full) | dpp.i (double_partial.double_full = 4P)
+        //   add.i.j | sub.i.j | subv.i.j (owned operands) | addz.i | subz.i | subzv.i (GePrecomp::ZERO) | smb.<scalar>
+        // output per register: "<to_bytes>:<= or !>" (! when to_partial().to_bytes() disagrees with to_bytes())
+        "ge_prog" => {
+            let mut regs: Vec<Ge> = Vec::new();
+            for s in a {
+                let p: Vec<&str> = s.splitn(2, '.').collect();
+                let idx: Vec<usize> = if p[0] == "in" || p[0] == "smb" { vec![] } else { p[1].split('.').map(usz).collect() };
+                let g = match p[0] {
+                    "in" => match point(p[1]) {
+                        Some(g) => g,
+                        None => return vec!["NONE".into()],
+                    },
+                    "smb" => Ge::scalarmult_base(&Scalar::from_bytes(&a32(&expand(p[1])))),
+                    "dbl" => regs[idx[0]].double(),
+                    "dbp" => regs[idx[0]].double_p1p1().to_full(),
+                    "dpf" => regs[idx[0]].clone().to_partial().double_full(),
+                    "dpp" => regs[idx[0]].double_partial().double_full(),
+                    "add" => (&regs[idx[0]] + &regs[idx[1]].to_cached()).to_full(),
+                    "sub" => (&regs[idx[0]] - &regs[idx[1]].to_cached()).to_full(),
+                    "subv" => (regs[idx[0]].clone() - regs[idx[1]].to_cached()).to_full(),
+                    "addz" => (&regs[idx[0]] + &GePrecomp::ZERO).to_full(),
+                    "subz" => (&regs[idx[0]] - &GePrecomp::ZERO).to_full(),
+                    "subzv" => (regs[idx[0]].clone() - GePrecomp::ZERO).to_full(),
+                    _ => panic!("bad ge_prog step"),
+                };
+                regs.push(g);
+            }
+            regs.iter()
+                .map(|g| {
+                    let b = g.to_bytes();
+                    format!("{}:{}", hex(&b), if g.clone().to_partial().to_bytes() == b { "=" } else { "!" })
+                })
+                .collect()
         }
         "ge_decode" => vec![match Ge::from_bytes(&a32(&expand(a[0]))) {
             Some(g) => hex(&g.to_bytes()),
